@@ -677,6 +677,8 @@ impl SieveMPQS<'_> {
     fn finished(&self) -> bool {
         // The relaxed memory ordering is fine, it's okay to do
         // some extra work if threads don't fully synchronize.
+        #[cfg(yamaquasi_verif)]
+        crate::verif_hooks::jitter();
         if self.done.load(Ordering::Relaxed) {
             return true;
         }
@@ -754,6 +756,8 @@ fn sieve_block_poly(s: &SieveMPQS, pol: &Poly, roots: [&[u32]; 2], st: &mut siev
             cyclelen: 1,
         };
         debug_assert!(rel.verify(n));
+        #[cfg(yamaquasi_verif)]
+        crate::verif_hooks::jitter();
         s.rels.write().unwrap().add(rel, pq);
     }
 }
